@@ -647,6 +647,18 @@ static std::string op_chain(const toks_t& t)
           p = rlbox::sandbox_reinterpret_cast<char*>(q);
         }
       });
+    } else if (c == "pp" || c == "mm") {
+      // ++q / --q on a tainted pointer to <pt>
+      with_ptee(o[1], [&](auto tg) {
+        using T = typename decltype(tg)::type;
+        if constexpr (std::is_const_v<T>) {
+          throw std::runtime_error("HARNESS const pointee in a chain");
+        } else {
+          auto q = rlbox::sandbox_reinterpret_cast<T*>(p);
+          if (c == "pp") ++q; else --q;
+          p = rlbox::sandbox_reinterpret_cast<char*>(q);
+        }
+      });
     } else if (c == "f") {
       auto q = rlbox::sandbox_reinterpret_cast<PS*>(p);
       if (o[1] == "a") p = rlbox::sandbox_reinterpret_cast<char*>(&(q->a));
